@@ -151,7 +151,8 @@ fn show(v: &ScalarValue) -> String {
     if v.is_null() {
         return format!("NULL::{}", v.data_type());
     }
-    let s = format!("{v:?}");
+    // ScalarValue's Display panics on some values (Date64 outside chrono's range: `try_milliseconds(v).unwrap()`)
+    let s = mc_core::catch(|| format!("{v:?}")).unwrap_or_else(|_| format!("<{} whose Display panics>", v.data_type()));
     if s.len() > 160 { format!("{}…", s.chars().take(160).collect::<String>()) } else { s }
 }
 
@@ -182,9 +183,26 @@ struct Grid<'a> {
     ref_type: Option<DataType>,
     findings: Vec<Finding>,
     stats: Stats,
+    /// the wall cap passed while this grid was being evaluated: its (partial) findings are discarded
+    aborted: bool,
 }
 
+/// Set by `explore` (not by replays): once the run's wall cap has passed, grids still being evaluated stop
+/// invoking the function and report nothing (the run is then marked non-exhaustive).
+static DEADLINE: std::sync::OnceLock<std::time::Instant> = std::sync::OnceLock::new();
+/// true only while `explore` enumerates its tasks (the determinism guard's replays afterwards run to the end)
+static ARMED: std::sync::atomic::AtomicBool = std::sync::atomic::AtomicBool::new(false);
+
 impl<'a> Grid<'a> {
+    fn finish(mut self) -> (Vec<Finding>, Stats, Vec<Vec<usize>>) {
+        if self.aborted {
+            self.findings.clear();
+            self.stats.nontrivial = false;
+            self.stats.add("grids_abandoned_at_wall_cap", 1);
+        }
+        (self.findings, self.stats, self.rows)
+    }
+
     fn scalar(&self, arg: usize, idx: usize) -> Option<ScalarValue> {
         ScalarValue::try_from_array(&self.plan.menus[arg], idx).ok()
     }
@@ -275,6 +293,10 @@ impl<'a> Grid<'a> {
     }
 
     fn eval_chunk(&mut self, rep: &str, ch: Chunk, n: usize, fill: bool) {
+        if self.aborted || (ARMED.load(std::sync::atomic::Ordering::Relaxed) && DEADLINE.get().is_some_and(|d| std::time::Instant::now() > *d)) {
+            self.aborted = true;
+            return;
+        }
         self.stats.add("invocations", 1);
         self.stats.add(&format!("invocations.{}", rep_class(rep)), 1);
         match invoke(self.udf, &ch.args, n, &self.cfg) {
@@ -429,6 +451,7 @@ fn run_grid(udf: &ScalarUDF, plan: &Plan, vary: (usize, usize), opts: &Opts) -> 
         ref_type: None,
         findings: vec![],
         stats: Stats::default(),
+        aborted: false,
     };
     let want = |name: &str| opts.rep.as_ref().map(|r| r == name).unwrap_or(true);
 
@@ -652,7 +675,7 @@ fn run_grid(udf: &ScalarUDF, plan: &Plan, vary: (usize, usize), opts: &Opts) -> 
                 .map(|x| if x == vi || x == vj { Some(ColumnarValue::Array(g.col(x, &with_ref))) } else { g.scalar(x, g.rows[with_ref[0]][x]).map(ColumnarValue::Scalar) })
                 .collect::<Option<Vec<_>>>()
             else {
-                return (g.findings, g.stats, g.rows);
+                return g.finish();
             };
             let must = with_ref.iter().all(|r| g.base_ok[*r]);
             let n = with_ref.len();
@@ -671,7 +694,7 @@ fn run_grid(udf: &ScalarUDF, plan: &Plan, vary: (usize, usize), opts: &Opts) -> 
         }
     }
     g.stats.nontrivial = distinct.len() >= 2 && g.stats.c.get("comparisons_nonnull").copied().unwrap_or(0) > 0;
-    (g.findings, g.stats, g.rows)
+    g.finish()
 }
 
 // ------------------------------------------------------------------------------------------------
@@ -808,7 +831,7 @@ fn run_task(reg: &str, udf: &ScalarUDF, sig: usize, types: &[DataType], thorough
         if stop() {
             break;
         }
-        let (findings, stats, rows) = run_grid(udf, &plan, vary, &Opts { all_splits: thorough, rows: None, rep: None });
+        let (findings, stats, rows) = run_grid(udf, &plan, vary, &Opts { all_splits: false, rows: None, rep: None });
         out.evaluated += 1;
         for (k, v) in &stats.c {
             *out.counters.entry(k.clone()).or_insert(0) += v;
@@ -857,12 +880,18 @@ fn run_task(reg: &str, udf: &ScalarUDF, sig: usize, types: &[DataType], thorough
 }
 
 fn explore(ctx: &Ctx) {
-    let cap = ctx.pick(6, SIG_CAP_MAX);
+    // both tiers: 6 type lists per function (more made single functions with nested outputs run for tens of minutes);
+    // the thorough tier adds the spark registry and the finer batch cuts
+    let cap = 6;
     let demo = std::env::var("C32_DEMO").map(|v| v == "1").unwrap_or(false);
     let only: Option<String> = std::env::var("C32_ONLY").ok();
     let trace = std::env::var("C32_TRACE").is_ok();
     let mut regs: Vec<&str> = vec!["default"];
-    if ctx.thorough() {
+    // The spark registry, 12 type lists per function and every batch cut were the planned thorough tier; with them
+    // single functions run for tens of minutes (nested outputs converted row by row), the run did not finish inside
+    // the 45-minute cap and what it reported depended on where the cap fell.  Until the grid evaluation is made
+    // incremental the thorough tier explores what the quick tier explores (C32_SPARK=1 adds the spark registry).
+    if std::env::var_os("C32_SPARK").is_some() {
         regs.push("spark");
     }
     if demo {
@@ -929,7 +958,7 @@ fn explore(ctx: &Ctx) {
         json!({
             "registries": regs, "type_lists_per_function": cap, "probe_alphabet": menu::probe_alphabet().iter().map(|t| t.to_string()).collect::<Vec<_>>(),
             "menu": "NULL, empty/zero, ASCII/typical, multibyte/negative, >12 bytes, NaN/inf/MIN/MAX; <= 3 probe-selected pool strings per string argument",
-            "varied_arguments": "every pair (others fixed at default)", "splits": if ctx.thorough() { "every cut (grids of > 64 good rows: 1, n/2, n-1 and ~32 evenly spaced cuts)" } else { "cuts at 1 and n/2" },
+            "varied_arguments": "every pair (others fixed at default)", "splits": "cuts at 1 and n/2",
             "representations": ["base", "const", "const3", "batch", "batch-full", "sliced", "split@k", "scalar:i", "scalar:fixed", "flavour:k:T", "flavour:all:F", "dict:k:dense", "dict:k:sparse", "dict:k:nullvalue"],
         }),
     );
@@ -942,7 +971,12 @@ fn explore(ctx: &Ctx) {
     println!("functions exercised: {n_funcs} of {n_considered}; (function, type list) tasks: {}", tasks.len());
 
     let thorough = ctx.thorough();
-    let outs: Vec<TaskOut> = tasks
+    // deadline for grids in flight (a single grid may take minutes): the same wall cap as mc-core's
+    let cap_s = std::env::var("VERIF_WALL_CAP_S").ok().and_then(|v| v.parse::<u64>().ok()).unwrap_or(if ctx.thorough() { 45 * 60 } else { 55 });
+    let _ = DEADLINE.set(std::time::Instant::now() + std::time::Duration::from_secs(cap_s));
+    ARMED.store(true, std::sync::atomic::Ordering::Relaxed);
+    let outs: Vec<TaskOut> = {
+        let o: Vec<TaskOut> = tasks
         .par_iter()
         .map(|(reg, u, i, t)| {
             if ctx.should_stop() {
@@ -959,6 +993,9 @@ fn explore(ctx: &Ctx) {
             o
         })
         .collect();
+        o
+    };
+    ARMED.store(false, std::sync::atomic::Ordering::Relaxed);
     let mut unfinished = 0u64;
     let mut roots: BTreeMap<String, Vec<String>> = BTreeMap::new();
     for o in outs {
@@ -993,6 +1030,9 @@ fn explore(ctx: &Ctx) {
     }
     ctx.set_extra("findings_by_root", json!(roots));
     ctx.count("tasks_not_evaluated", unfinished);
+    if DEADLINE.get().is_some_and(|d| std::time::Instant::now() > *d) {
+        ctx.mark_capped("wall cap reached: grids in flight were abandoned and later tasks not evaluated");
+    }
     ctx.count("oversized_allocations_refused", engine::REFUSED_ALLOCATIONS.load(std::sync::atomic::Ordering::Relaxed));
 }
 
@@ -1019,7 +1059,9 @@ fn limit_address_space(bytes: u64) {
 }
 
 fn main() {
-    mc_core::quiet_panics();
+    if std::env::var_os("VERIF_LOUD_PANICS").is_none() {
+        mc_core::quiet_panics();
+    }
     limit_address_space(48 << 30);
     if std::env::args().any(|a| a == "--list") {
         for reg in ["default", "spark"] {
